@@ -12,7 +12,7 @@ elab "#audit_props " pid:str : command => do
   let pfx := pid.getString ++ "_"
   let mut names : Array Name := #[]
   for (n, ci) in env.constants.toList do
-    if n.getPrefix == `QV.Props then
+    if (`QV.Props).isPrefixOf n then
       match n with
       | .str _ s =>
         if s.startsWith pfx then
